@@ -211,7 +211,7 @@ def add_violations(verdict, v):
 def run(ctx, skip_exhaustive=False):
     quick = ctx.tier == "quick"
     ctx.spec_copy()          # not thread safe on first use
-    pool = ThreadPoolExecutor(max_workers=3)
+    pool = ThreadPoolExecutor(max_workers=2)
 
     # ---- 1. design spec, exhaustive facets ------------------------------------------------
     if quick:
@@ -236,7 +236,7 @@ def run(ctx, skip_exhaustive=False):
         name = base.replace(".cfg", "_run.cfg")
         cfg = core.cfg_variant(ctx, base, name, consts)
         return ctx.tlc("C14_sync", cfg, must_pass=True, timeout=1500 if quick else 3000, label=base[:-4], workers=4,
-                       heap="5g")
+                       heap="4g")
 
     ex_futs = [pool.submit(exhaustive, it) for it in ([] if skip_exhaustive else facets)]
 
